@@ -179,6 +179,13 @@ getSubstringLength(
             }
             else
             {
+                // (Compared as numbers first: converting a total that
+                // size_type cannot hold is undefined.)
+                if (theTotal >= double(theXPathStartIndex) + double(theMaxLength))
+                {
+                    return theMaxLength;
+                }
+
                 const size_type     theSubstringLength =
                     size_type(theTotal) - theXPathStartIndex;
 
